@@ -185,9 +185,22 @@ def h_prologue(eng, abiname, flags, align, preserve):
     all_regs = [r.name for r in abi.all_registers()]
     scratchable = [r.name for r in abi._scratch_registers()]
     clobber_sets = [[], scratchable[:1], scratchable[1:3], scratchable[:3], [all_regs[-1]], ["%s" % _alias(abi, scratchable[0])]]
+    read_sets = [[], scratchable[:1], [_alias(abi, scratchable[1])], scratchable[:2]]
+    scratch_counts = [0, 1, 2, 3]
+    if TIER == "thorough":
+        import itertools
+        usable = [r for r in all_regs if r not in RESERVED[abiname] and r not in SP_NAMES]
+        clobber_sets += [[r] for r in usable[1:]] + [list(c) for c in itertools.combinations(scratchable[:6], 2)]
+        clobber_sets += [scratchable[:5], usable]
+        try:
+            clobber_sets.append([r.name for r in abi.caller_saved_registers()])
+        except NotImplementedError:
+            pass
+        read_sets += [[r] for r in scratchable[2:6]] + [[_alias(abi, r)] for r in scratchable[2:4]]
+        scratch_counts = [0, 1, 2, 3, 5]
     clobbers = eng.choose("clobbers", clobber_sets)
-    nscratch = eng.choose("scratch", [0, 1, 2, 3])
-    reads = eng.choose("reads", [[], scratchable[:1], [_alias(abi, scratchable[1])], scratchable[:2]])
+    nscratch = eng.choose("scratch", scratch_counts)
+    reads = eng.choose("reads", read_sets)
     leaf = eng.choose("leaf", [False, True])
     cons = Constraints(clobbers_registers=set(clobbers), clobbers_flags=flags, scratch_registers=nscratch,
                        reads_registers=set(reads), align_stack=align, preserve_caller_saved_registers=preserve)
@@ -288,7 +301,12 @@ def classify(rec):
     return "violation"
 
 
+TIER = "quick"
+
+
 def make_check(tier):
+    global TIER
+    TIER = tier
     chk = run.Check("C16", tier, level="translation_validation")
     chk.install_shims = shims.install_determinism
     chk.classify_exception = classify
